@@ -447,7 +447,16 @@ fn fpath(v: u8) -> String {
 /// triggers; values 3..=4 are reads of one byte of /f<v> under
 /// corruption_probability = 1, i.e. synchronous `trigger_noop(FsCorruption)`
 /// fired by turmoil's fs corruption hook (the read offset carries the trigger id).
-async fn sim_source(s: usize, script: Vec<(u64, u8, bool)>, prog: Rc<Cell<u64>>, next_t: Rc<Cell<u64>>) -> turmoil::Result {
+type SharedBars = Rc<RefCell<Vec<Option<AnyBar>>>>;
+
+fn build_fs_barrier(bars: &mut Vec<Option<AnyBar>>, cond: Vec<u8>, by: usize) {
+    let b = bars.len() + 1;
+    let paths: Vec<std::path::PathBuf> = cond.iter().map(|v| fpath(*v).into()).collect();
+    bars.push(Some(AnyBar::F(Barrier::build(Reaction::Noop, move |x: &FsCorruption| paths.contains(&x.path)))));
+    rec::emit(json!({"ev":"build","b":b,"reaction":"Noop","cond":cond,"by":by}));
+}
+
+async fn sim_source(s: usize, script: Vec<(u64, u8, bool)>, prog: Rc<Cell<u64>>, next_t: Rc<Cell<u64>>, bars: SharedBars) -> turmoil::Result {
     use std::os::unix::fs::FileExt;
     use turmoil::fs::shim::std::fs::OpenOptions;
     let mut files = BTreeMap::new();
@@ -457,7 +466,15 @@ async fn sim_source(s: usize, script: Vec<(u64, u8, bool)>, prog: Rc<Cell<u64>>,
         files.insert(v, f);
     }
     for (gap, v, sync) in script {
-        tokio::time::sleep(Duration::from_millis(gap)).await;
+        if gap > 0 {
+            tokio::time::sleep(Duration::from_millis(gap)).await;
+        }
+        if v >= 13 {
+            // the host software itself registers a Barrier<FsCorruption> (13: {3}, 14: {4}, 15: {3,4})
+            let cond = match v { 13 => vec![3], 14 => vec![4], _ => vec![3, 4] };
+            build_fs_barrier(&mut bars.borrow_mut(), cond, s);
+            continue;
+        }
         let t = next_t.get() + 1;
         next_t.set(t);
         rec::emit(json!({"ev":"trig","src":s,"v":v,"sync":sync,"t":t}));
@@ -486,6 +503,30 @@ enum AnyHandle {
     F(#[allow(dead_code)] Triggered<FsCorruption>),
 }
 
+/// Barrier::wait polled once; returns the trigger id (0 = nothing queued) and keeps the handle.
+fn wait_any(bar: &mut AnyBar, handles: &mut BTreeMap<u64, AnyHandle>) -> u64 {
+    match bar {
+        AnyBar::V(bar) => match poll_once(bar.wait()) {
+            Poll::Ready(Some(tr)) => {
+                let t = tr.t;
+                handles.insert(t, AnyHandle::V(tr));
+                t
+            }
+            Poll::Ready(None) => 999_999,
+            Poll::Pending => 0,
+        },
+        AnyBar::F(bar) => match poll_once(bar.wait()) {
+            Poll::Ready(Some(tr)) => {
+                let t = tr.offset;
+                handles.insert(t, AnyHandle::F(tr));
+                t
+            }
+            Poll::Ready(None) => 999_999,
+            Poll::Pending => 0,
+        },
+    }
+}
+
 fn poll_once<F: Future>(f: F) -> Poll<F::Output> {
     let mut cx = Context::from_waker(Waker::noop());
     let mut f = std::pin::pin!(f);
@@ -511,6 +552,10 @@ fn main_sim(args: &[String]) {
         }
         let mut sim = builder.build();
         let next_t = Rc::new(Cell::new(0u64));
+        let shared_bars: SharedBars = Rc::new(RefCell::new(Vec::new()));
+        // in half of the runs the barriers are registered by the host software, inside a step, right before
+        // the corrupted reads of that same tick; the test thread then builds none
+        let host_builds = rng.random_bool(0.5);
         let mut progs = Vec::new();
         for s in 1..=nh {
             let n = rng.random_range(3..=7);
@@ -520,16 +565,27 @@ fn main_sim(args: &[String]) {
                     (rng.random_range(1..=4u64), v, v >= 3)
                 })
                 .collect();
-            ntrig += script.len() as u64;
-            nfs += script.iter().filter(|x| x.1 >= 3).count() as u64;
+            let mut script = script;
+            if host_builds && (s == 1 || rng.random_bool(0.5)) {
+                let c = rng.random_range(13..=15u8);
+                let v = if c == 14 { 4 } else { 3 };
+                let at = rng.random_range(0..script.len().min(3));
+                script.insert(at, (rng.random_range(1..=3u64), c, true));
+                // a matching corrupted read in the same tick, right after the registration
+                script.insert(at + 1, (0, v, true));
+                if rng.random_bool(0.5) {
+                    script.insert(at + 2, (0, v, true));
+                }
+            }
+            ntrig += script.iter().filter(|x| x.1 < 13).count() as u64;
+            nfs += script.iter().filter(|x| x.1 >= 3 && x.1 < 13).count() as u64;
             let prog = Rc::new(Cell::new(0u64));
             progs.push(prog.clone());
             let nt = next_t.clone();
             // a client: Sim::client takes a !Send future; it never finishes
-            sim.client(format!("h{s}"), sim_source(s, script, prog, nt));
+            sim.client(format!("h{s}"), sim_source(s, script, prog, nt, shared_bars.clone()));
         }
         rec::emit(json!({"ev":"reset","nsrc":nh}));
-        let mut bars: Vec<Option<AnyBar>> = Vec::new();
         let mut handles: BTreeMap<u64, AnyHandle> = BTreeMap::new();
         // which source is inside a call (tracked from the events) -> poll/poll_end synthesis
         let mut open: Vec<bool> = vec![false; nh + 1];
@@ -537,11 +593,13 @@ fn main_sim(args: &[String]) {
         let mut dead = false;
         for step in 0..steps {
             // test-thread operations between steps (a few builds before the first step)
-            let nops = if step == 0 { 3 } else { rng.random_range(0..=3) };
+            let nops = if step == 0 { if host_builds { 0 } else { 3 } } else { rng.random_range(0..=3) };
+            let mut bars_guard = shared_bars.borrow_mut();
+            let bars: &mut Vec<Option<AnyBar>> = &mut bars_guard;
             for _ in 0..nops {
                 match if step == 0 { 0 } else { rng.random_range(0..100) } {
                     0..20 => {
-                        if bars.len() < 6 {
+                        if bars.len() < 6 && !host_builds {
                             let b = bars.len() + 1;
                             if rng.random_bool(0.6) {
                                 let mut cond: Vec<u8> = (1..=2u8).filter(|_| rng.random_bool(0.6)).collect();
@@ -576,27 +634,7 @@ fn main_sim(args: &[String]) {
                     27..80 => {
                         if !bars.is_empty() {
                             let b = rng.random_range(1..=bars.len());
-                            let res = match bars[b - 1].as_mut() {
-                                None => None,
-                                Some(AnyBar::V(bar)) => Some(match poll_once(bar.wait()) {
-                                    Poll::Ready(Some(tr)) => {
-                                        let t = tr.t;
-                                        handles.insert(t, AnyHandle::V(tr));
-                                        t
-                                    }
-                                    Poll::Ready(None) => 999_999,
-                                    Poll::Pending => 0,
-                                }),
-                                Some(AnyBar::F(bar)) => Some(match poll_once(bar.wait()) {
-                                    Poll::Ready(Some(tr)) => {
-                                        let t = tr.offset;
-                                        handles.insert(t, AnyHandle::F(tr));
-                                        t
-                                    }
-                                    Poll::Ready(None) => 999_999,
-                                    Poll::Pending => 0,
-                                }),
-                            };
+                            let res = bars[b - 1].as_mut().map(|bar| wait_any(bar, &mut handles));
                             if let Some(res) = res {
                                 if res > 0 {
                                     nhit += 1;
@@ -615,6 +653,7 @@ fn main_sim(args: &[String]) {
                     }
                 }
             }
+            drop(bars_guard);
             // one step: every host gets its turn
             let head = rec::take();
             all.extend(head);
@@ -625,10 +664,11 @@ fn main_sim(args: &[String]) {
             let mut seen = vec![false; nh + 1];
             let mut outv: Vec<Value> = Vec::new();
             while k < raw.len() {
-                let s = raw[k]["src"].as_u64().unwrap() as usize;
+                let src_of = |e: &Value| e["src"].as_u64().or(e["by"].as_u64()).unwrap() as usize;
+                let s = src_of(&raw[k]);
                 seen[s] = true;
                 let mut in_poll = false;
-                while k < raw.len() && raw[k]["src"].as_u64().unwrap() as usize == s {
+                while k < raw.len() && src_of(&raw[k]) == s {
                     let e = &raw[k];
                     match e["ev"].as_str().unwrap() {
                         "ret" => {
@@ -646,6 +686,13 @@ fn main_sim(args: &[String]) {
                             }
                             in_poll = true;
                             open[s] = true;
+                        }
+                        "build" => {
+                            // Barrier::build called by the host software between two of its trigger calls
+                            if in_poll {
+                                outv.push(json!({"ev":"poll_end","src":s,"prog":cur_prog[s]}));
+                            }
+                            in_poll = false;
                         }
                         _ => {}
                     }
@@ -672,9 +719,25 @@ fn main_sim(args: &[String]) {
             }
             all.extend(outv);
         }
-        let _ = dead;
+        if !dead {
+            // drain: whatever is still queued on a live barrier must come out, in trigger order
+            let mut bars = shared_bars.borrow_mut();
+            for b in 1..=bars.len() {
+                if let Some(bar) = bars[b - 1].as_mut() {
+                    loop {
+                        let res = wait_any(bar, &mut handles);
+                        rec::emit(json!({"ev":"wait","b":b,"res":res}));
+                        if res == 0 || res == 999_999 {
+                            break;
+                        }
+                        nhit += 1;
+                    }
+                }
+            }
+        }
+        all.extend(rec::take());
         drop(handles);
-        drop(bars);
+        shared_bars.borrow_mut().clear();
         drop(sim);
         all.extend(rec::take());
     }
